@@ -37,6 +37,16 @@ class SObj:
         return f"SObj<{getattr(self.cls, 'name', self.cls)}>"
 
 
+class SList:
+    """mutable list object whose content is a symbolic sequence (Sym kind 'seq'); identity = Python identity"""
+
+    def __init__(self, sym):
+        self.sym = sym
+
+    def __repr__(self):
+        return f"SList<{self.sym.t}>"
+
+
 class SOpt:
     def __init__(self, is_none, val):
         self.is_none, self.val = is_none, val
